@@ -20,6 +20,41 @@ CACHE = os.environ.get('VERIF_CACHE') or os.path.join(VERIF, '.cache')
 INF = float('inf')
 
 
+def _canon_counted_while(stmts):
+    """`[v = lo;] while (v < hi) { body; v++; rest }` with rest not mentioning v, v assigned nowhere else in the body and no `continue`
+    ==> the counted `for` that `for ([v = lo]; v < hi; v++) { body; rest }` produces: one loop form for all rules."""
+    from .ir import walk_stmts, walk_expr, stmt_exprs
+    out = list(stmts)
+    for k, w in enumerate(out):
+        if w.k != 'while' or w.d.get('do'):
+            continue
+        c = w.cond
+        if c is None or not (c[0] == 'bin' and c[1] in ('<', '<=') and c[2][0] == 'var') or not w.body:
+            continue
+        v = c[2]
+        if any(x == v for x in walk_expr(c[3])):
+            continue
+        incs = [q for q, t in enumerate(w.body) if t.k == 'assign' and t.target == v and t.aug == '+' and t.value[0] == 'bin' and t.value[2] == v]
+        if len(incs) != 1:
+            continue
+        q = incs[0]
+        rest = w.body[q + 1:]
+        if any(x == v for t in walk_stmts(rest) for e in stmt_exprs(t) for x in walk_expr(e)):
+            continue
+        body = w.body[:q] + rest
+        if any(t.k == 'continue' for t in walk_stmts(body)) or any(t.k == 'assign' and t.target == v for t in walk_stmts(body)):
+            continue
+        lo = None
+        drop = None
+        if k > 0 and out[k - 1].k == 'assign' and out[k - 1].target == v and out[k - 1].aug is None:
+            lo, drop = out[k - 1].value, k - 1
+        out[k] = S('for', w.line, var=v[1], lo=lo, hi=c[3], step=w.body[q].value[3], body=body, inclusive=(c[1] == '<='), declares=False)
+        if drop is not None:
+            del out[drop]
+        return _canon_counted_while(out)
+    return out
+
+
 class CFunc:
     def __init__(self, name, file, line, rtype, params, body, proto_only):
         self.name = name
@@ -296,7 +331,7 @@ class _FnConv:
             for c in n.get('inner', ()):
                 out.extend(self.stmt(c))
             self.scopes.pop()
-            return out
+            return _canon_counted_while(out)
         return self.stmt(n)
 
     def _assert(self, n):
@@ -556,8 +591,35 @@ _UNITS = {}
 def unit(repo, fname, defines=(), openmp=True):
     key = (repo, fname, tuple(defines), openmp)
     if key not in _UNITS:
-        _UNITS[key] = load_unit(repo, fname, defines, openmp)
+        _UNITS[key] = _expand_new_helpers(load_unit(repo, fname, defines, openmp), fname)
     return _UNITS[key]
+
+
+def _expand_new_helpers(u, fname):
+    """Expand, in every function of the unit, the calls to functions of the same unit that are not part of the baseline tree (see inline.py)."""
+    from . import inline
+    base = inline.baseline().get(fname)
+    if base is None or all(q in base for q in u.funcs):
+        return u
+    raw = {q: f.body for q, f in u.funcs.items()}
+
+    def resolve(call):
+        c = call[1]
+        if c[0] != 'var' or c[1] in base:
+            return None
+        g = u.funcs.get(c[1])
+        if g is None or raw.get(c[1]) is None:
+            return None
+        return (c[1], [p[0] for p in g.params], {}, raw[c[1]], None, dict(g.params))
+    for q, f in u.funcs.items():
+        if f.body is None:
+            continue
+        ex = inline.Expander(resolve, 'c')
+        try:
+            f.body = ex.block(raw[q])
+        except RecursionError:
+            f.body = raw[q]
+    return u
 
 
 if __name__ == '__main__':
